@@ -11,6 +11,19 @@ from vlib import core
 THEOREMS = ["C12_supported", "C12_preference", "C12_default", "C12_lossy", "C12_spec",
             "C12_candidates_nodup", "C12_old_refuted"]
 PROPS = "theories/Props/C12.v"
+REGISTRY = {
+    "level": "proof",
+    "technique": "Coq proof over a Gallina model of langid.rs + differential correspondence (coqc vm_compute vs compiled langid.rs)",
+    "text": "Theorems C12_supported/C12_preference/C12_default/C12_lossy/C12_spec (Props/C12.v) hold for every supported list and "
+            "every request list over an abstract subtag carrier (no bound). The model is tied to /repo by running filter_matches, "
+            "find_match and Locale::find_locale (langid.rs compiled by #[path]) on thousands of generated cases and evaluating "
+            "the Coq spec predicate on the implementation's answers.",
+    "design_ref": "DESIGN.md §5 C12",
+    "note": "Trusted: Coq kernel + vm_compute; hand-written model Runtime/Langid.v (tied by the correspondence run); icu_locid "
+            "LanguageIdentifier parsing is an oracle; Python generator; Rust harness h_rt. No axioms (Print Assumptions: closed).",
+    "engine": "coq",
+    "packages": [("h_rt",)],
+}
 PRE = ("From Coq Require Import List NArith.\nImport ListNotations.\n"
        "From LI Require Import Runtime.Langid Runtime.LangidCheck.\nOpen Scope N_scope.\n")
 
